@@ -158,8 +158,8 @@ pub const TOKB: &[&str] = &[
 ];
 
 pub const GRID: &[&str] = &[
-    "0", "1", "2", "2147483647", "2147483648", "4294967295", "4294967296", "9223372036854775807", "9223372036854775808", "18446744073709551615", "18446744073709551616",
-    "1000000000000000000000000000000",
+    "0", "1", "2", "2147483647", "2147483648", "4294967295", "4294967296", "2000000000000000000", "2305843009213693951", "9223372036854775807", "9223372036854775808", "18446744073709551615",
+    "18446744073709551616", "1000000000000000000000000000000",
 ];
 
 const SKELETONS: &[&[&str]] = &[
